@@ -251,6 +251,9 @@ def explore(b, prop, world, tier, seed, budget_s, chunk, extra_job=None):
             kw["to"] = next_from + per
             if extra_job:
                 kw.update(extra_job)
+            if os.environ.get("VERIF_OVERRIDE"):
+                # triage aid: VERIF_OVERRIDE="focus=C07,players=3"; the replay files carry the overrides
+                kw["override"] = dict(kv.split("=", 1) for kv in os.environ["VERIF_OVERRIDE"].split(","))
             jp, out = b.job(**kw)
             procs.append((b.spawn(jp), jp, out, time.time()))
             next_from += per
@@ -296,7 +299,7 @@ def explore(b, prop, world, tier, seed, budget_s, chunk, extra_job=None):
 
 def make_replay(b, prop, r, v, streams=None, override=None, stop_at=None):
     return dict(version=1, property=prop, world=r["world"], tier=r.get("tier") or CUR_TIER, violation=v, seed=r["seed"], run_index=r["run"],
-                override=override if override is not None else {}, stop_at_ms=stop_at or 0,
+                override=override if override is not None else (r.get("override") or {}), stop_at_ms=stop_at or 0,
                 streams=streams if streams is not None else r.get("streams") or {}, config=r.get("config"),
                 schedule_summary=r.get("schedule_summary"), event_tail=r.get("event_tail"), log_digest=r.get("log_digest"),
                 tree_hash=b.tree_hash, toolchain="go1.26.8 testing/synctest")
@@ -596,6 +599,8 @@ def cmd_replay(a):
         res, err = run_replay(b, rf, dump=a.dump)
         if res is None:
             infra("replay did not run: %s" % err[-800:])
+        if os.environ.get("VERIF_TRACE"):
+            sys.stdout.write(err)
         if a.dump:
             for l in res.get("event_tail") or []:
                 print(l)
